@@ -229,6 +229,45 @@ def h_pivots(ctx, n):
              'piv2mat is a permutation matrix with determinant piv2det')
 
 
+def h_pivots_utpm(ctx, n, P):
+    """UTPM.lu2 + UTPM.piv2mat + UTPM.piv2det with one pivot vector per direction"""
+    algopy = symx.load_algopy()
+    X = _vars(ctx, 'A', (2, P, n, n))
+    A = mk_utpm(ctx, algopy, X)
+    PIV, L, U = algopy.UTPM.lu2(A)
+    W = plain(algopy.UTPM.piv2mat(PIV).data)
+    sg = plain(algopy.UTPM.piv2det(PIV).data)
+    Ld, Ud = plain(L.data), plain(U.data)
+    for p in range(P):
+        ctx.eq(np.dot(np.dot(W[0, p], Ld[0, p]), Ud[0, p]), X[0, p], 'piv2mat(PIV)[dir %d] L0 U0 == A0' % p)
+        du = 1
+        for i in range(n):
+            du = du * Ud[0, p, i, i]
+        ctx.eq(sg[0, p] * du, _leibniz(X[0, p]), 'piv2det(PIV)[dir %d] prod(diag U0) == det A0' % p)
+        ctx.eq(W[1, p], np.zeros((n, n)), 'permutation is constant')
+
+
+def h_as_utpm_views(ctx, D, P):
+    """containers that are transposed / Fortran-ordered object arrays"""
+    algopy = symx.load_algopy()
+    UTPM = algopy.UTPM
+    els = {}
+    objs = np.empty((2, 3), dtype=object)
+    for i in range(2):
+        for j in range(3):
+            els[i, j] = _vars(ctx, 'e%d%d' % (i, j), (D, P))
+            objs[i, j] = mk_utpm(ctx, algopy, els[i, j])
+    for name, cont, get in [('transposed view', objs.T, lambda i, j: els[j, i]),
+                            ('fortran order', np.asfortranarray(objs), lambda i, j: els[i, j]),
+                            ('reversed view', objs[::-1, ::-1], lambda i, j: els[1 - i, 2 - j])]:
+        y = UTPM.as_utpm(cont)
+        Y = plain(y.data)
+        ctx.fact(Y.shape == (D, P) + cont.shape, 'as_utpm(%s) shape %s' % (name, Y.shape))
+        for i in range(cont.shape[0]):
+            for j in range(cont.shape[1]):
+                ctx.eq(Y[:, :, i, j], get(i, j), 'as_utpm(%s)[%d,%d]' % (name, i, j))
+
+
 def h_pivot_enum(ctx, n):
     """all n! pivot vectors (piv[i] in i..n-1), independent of any matrix"""
     algopy = symx.load_algopy()
@@ -266,6 +305,9 @@ def units(tier, seed):
             add('symvec/ndarray/n%d,%s' % (n, uplo), 'h_symvec', n=n, uplo=uplo, kind='ndarray')
             add('symvec/utpm/n%d,%s' % (n, uplo), 'h_symvec', n=n, uplo=uplo, kind='utpm', D=2, P=2)
     add('containers/D2,P2', 'h_containers', D=2, P=2)
+    add('containers/permuted object arrays/D2,P2', 'h_as_utpm_views', D=2, P=2)
+    add('pivots/UTPM.piv2mat+piv2det/n2,P2', 'h_pivots_utpm', opts={'path_budget': 200}, n=2, P=2)
+    add('pivots/UTPM.piv2mat+piv2det/n3,P2', 'h_pivots_utpm', opts={'path_budget': 400, 'validate_paths': 6}, n=3, P=2)
     for s in (1, 2, -1):
         add('shift(%d)/D4,P2' % s, 'h_shift', D=4, P=2, s=s)
     for n in ((2, 3) if tier == 'quick' else (2, 3, 4)):
